@@ -210,8 +210,8 @@ def Cmd.wf : Cmd → Bool
   | .fhdr2 name _ => name.length = 4 && asciiNoNul name
   | .fhdr3 name nums => name.length = 4 && asciiNoNul name && nums.length = 13
   | .aply opt _ => opt = 1 || opt = 2
-  | .adir name => asciiNoNul name && name.length < 2 ^ 16
-  | .deld name => asciiNoNul name && name.length < 2 ^ 16
+  | .adir name => asciiNoNul name && name.length < 2 ^ 32
+  | .deld name => asciiNoNul name && name.length < 2 ^ 32
   | .patchInfo .. => true
   | .target pl rg .. => pl < 5 && (rg = 0xFFFF || rg = 1)
   | .index .. => true
@@ -220,10 +220,10 @@ def Cmd.wf : Cmd → Bool
   | .expandData _ _ _ _ num => 1 ≤ num && num.toNat ≤ 2 ^ 31
   | .header _ _ _ _ _ data => data.length = 1024
   | .addFile _ _ path blocks =>
-    pathOk path && path.length < 2 ^ 16 && blocks.all Block.wf && fileSize blocks < 2 ^ 31
-  | .deleteFile _ path => pathOk path && path.length < 2 ^ 16
-  | .removeAll _ path => pathOk path && path.length < 2 ^ 16
-  | .mkDirTree _ path => pathOk path && path.length < 2 ^ 16
+    pathOk path && path.length + 1 < 2 ^ 32 && blocks.all Block.wf && fileSize blocks < 2 ^ 64
+  | .deleteFile _ path => pathOk path && path.length + 1 < 2 ^ 32
+  | .removeAll _ path => pathOk path && path.length + 1 < 2 ^ 32
+  | .mkDirTree _ path => pathOk path && path.length + 1 < 2 ^ 32
 
 /-! ## reference semantics -/
 
@@ -294,7 +294,8 @@ def effect (s : St) : Cmd → Option St
     let d : Path := [sSqpack, expansionFolder exp]
     some { s with tree := if isDir s.tree d then eraseUnder s.tree d else s.tree }
   | .mkDirTree _ path =>
-    (mkdirAll s.tree [] (splitSlash path).dropLast).map fun t => { s with tree := t }
+    -- the path names the directory tree to make
+    (mkdirAll s.tree [] (splitSlash path)).map fun t => { s with tree := t }
   | _ => some s
 
 /-- the file a data / header command addresses under the current platform -/
@@ -310,11 +311,11 @@ def targetPath (plat : Option UInt16) : Cmd → Option Path
 
 /-- the paths a command may change: its target file and the directories leading to it; for
 RemoveAll everything at or below the expansion's `sqpack` folder; for MakeDirTree the directories
-of the path -/
+of its path -/
 def touched (plat : Option UInt16) (c : Cmd) (q : Path) : Prop :=
   match c with
   | .removeAll exp _ => [sSqpack, expansionFolder exp] <+: q
-  | .mkDirTree _ path => q <+: (splitSlash path).dropLast
+  | .mkDirTree _ path => q <+: splitSlash path
   | c => match targetPath plat c with
     | some p => q <+: p
     | none => False
